@@ -541,8 +541,15 @@ func RunMembership(w *World, idx int) {
 		case 1: // sync + verify the WO replica
 			for _, f := range fs {
 				if modes[f] == types.WO && w.SyncFrom(f) {
-					scripted := r.Chance(25)
-					if scripted {
+					scripted := r.Chance(25) || (w.Net && w.Prop == "C10" && r.Chance(35))
+					if scripted && w.Net && r.Bool() {
+						// the request of the last verification step loses its connection before it is answered
+						f.mu.Lock()
+						f.CutNextREST = "setrevisioncounter"
+						f.mu.Unlock()
+						w.rec(Step{K: "next-set-revision-counter-request-loses-its-connection", Addr: f.Addr})
+						w.Res.Count("verify_last_step_connection_cuts_scripted", 1)
+					} else if scripted {
 						// the last step of the verification fails on the replica
 						f.mu.Lock()
 						f.RevFail = true
@@ -553,6 +560,7 @@ func RunMembership(w *World, idx int) {
 					err := w.Verify(f)
 					f.mu.Lock()
 					f.RevFail = false
+					f.CutNextREST = ""
 					f.mu.Unlock()
 					after = "verify"
 					if err != nil && !w.Dead {
